@@ -14,7 +14,7 @@ import (
 )
 
 func init() {
-	register("C10", "Decides the structural conditions of pod construction and of its agreement with the comparison: (R1) on every path of CreatePodFromDaemonSetReplicaSet the returned pod is built from a DeepCopy of replicaset.Spec.Template and, at the return, carries namespace ← replicaset.Namespace, label replica-set-name ← replicaset.Name, label extendeddaemonset-name ← replicaset.Labels[that key], annotation template-hash ← replicaset.Spec.TemplateGeneration, Tolerations ← append(·, StandardDaemonSetTolerations...); with node != nil either Spec.NodeName ← node.Name or Spec.Affinity ← ReplaceNodeNameNodeAffinity(·, node.Name), and the node-hash annotation ← GenerateHashFromEDSResourceNodeAnnotation(replicaset.Namespace, eds name, node.Annotations) exactly when that hash is non-empty; with scheme != nil SetControllerReference(replicaset, pod, scheme) — none of them overwritten later on the path, callee writes through the template pointer included (abstract last-writer simulation along every acyclic path); (R2) ReplaceNodeNameNodeAffinity: every return path installs the fresh single-term selector {metadata.name In [nodename]} or the rebuilt term list; the rebuilt list gets one term per original term (full index loop, no early exit, append on every iteration) and every appended term has the node-name requirement set, replaced or appended; GetNodeNameFromAffinity reads the same key; (R3) every Create(*Pod) reachable from a reconciler takes result #0 of that constructor called with Node and ExtendedDaemonsetSetting of one and the same creation candidate and with a scheme that traces back to a reconciler's scheme field; (R4) hash-key chain: the comparison reads the template-hash / node-hash annotation keys the constructor writes, compares the first with Replicaset.Spec.TemplateGeneration and the second with the same hash function over (replicaset.Namespace, ·, node annotations), and compareCurrentPodWithNewPod returns true only when both (and the setting check) returned true; (R5) source agreement: the constructor's writers of Containers[i].Resources are ordered by dominance (later wins); for every source written after the ExtendedDaemonsetSetting source (today: the node's annotations), every write by which the comparison overlays setting data onto the compared copy is guarded by a fact whose condition consults that source for the container (a lookup in the node's annotations with a key depending on the container name, directly or through a repository function whose results vary with such a lookup); (R5b) the guard under which the constructor stores the annotation's resources and the guard under which the comparison overlays the setting are both expressed (as a disjunction over paths of conjunctions of facts) on the results of one shared lookup function, and for every result combination that function can return (its return-path table, unknown values tried both ways) exactly one of the two guards holds; (R6) in GenerateMD5PodTemplateSpec and GenerateHashFromEDSResourceNodeAnnotation no digest feed (Write / io.Copy / Fprint* / crypto Sum input) lies inside a range-over-map loop, no string or buffer accumulated in such a loop reaches the digest, and every slice appended to in such a loop that reaches the digest is passed to a sort call that dominates the feed. Shapes read through: (R2) the reader may return the node name a repository helper found (the helper then gives the Key guarantee), and an existing node-name requirement may be replaced in a loop over collected indexes when the append is skipped only for a non-empty index list; (R4) the reader of a hash annotation may be handed the pod's annotation map instead of the pod (at every call the map must be a pod's Annotations), and the replica set whose namespace enters the node hash may be reached through a field; (R8) a namespace/name read off an object that is itself reached through fields is classified by that object's type.", runC10)
+	register("C10", "Decides the structural conditions of pod construction and of its agreement with the comparison: (R1) on every path of CreatePodFromDaemonSetReplicaSet the returned pod is built from a DeepCopy of replicaset.Spec.Template and, at the return, carries namespace ← replicaset.Namespace, label replica-set-name ← replicaset.Name, label extendeddaemonset-name ← replicaset.Labels[that key], annotation template-hash ← replicaset.Spec.TemplateGeneration, Tolerations ← append(·, StandardDaemonSetTolerations...); with node != nil either Spec.NodeName ← node.Name or Spec.Affinity ← ReplaceNodeNameNodeAffinity(·, node.Name), and the node-hash annotation ← GenerateHashFromEDSResourceNodeAnnotation(replicaset.Namespace, eds name, node.Annotations) exactly when that hash is non-empty; with scheme != nil SetControllerReference(replicaset, pod, scheme) — none of them overwritten later on the path, callee writes through the template pointer included (abstract last-writer simulation along every acyclic path); (R2) ReplaceNodeNameNodeAffinity: every return path installs the fresh single-term selector {metadata.name In [nodename]} or the rebuilt term list; the rebuilt list gets one term per original term (full index loop, no early exit, append on every iteration) and every appended term has the node-name requirement set, replaced or appended; GetNodeNameFromAffinity reads the same key; (R3) every Create(*Pod) reachable from a reconciler takes result #0 of that constructor called with Node and ExtendedDaemonsetSetting of one and the same creation candidate and with a scheme that traces back to a reconciler's scheme field; (R4) hash-key chain: the comparison reads the template-hash / node-hash annotation keys the constructor writes, compares the first with Replicaset.Spec.TemplateGeneration and the second with the same hash function over (replicaset.Namespace, ·, node annotations), and compareCurrentPodWithNewPod returns true only when both (and the setting check) returned true; (R5) source agreement: the constructor's writers of Containers[i].Resources are ordered by dominance (later wins); for every source written after the ExtendedDaemonsetSetting source (today: the node's annotations), every write by which the comparison overlays setting data onto the compared copy is guarded by a fact whose condition consults that source for the container (a lookup in the node's annotations with a key depending on the container name, directly or through a repository function whose results vary with such a lookup); (R5b) the guard under which the constructor stores the annotation's resources and the guard under which the comparison overlays the setting are both expressed (as a disjunction over paths of conjunctions of facts) on the results of one shared lookup function, and for every result combination that function can return (its return-path table, unknown values tried both ways) exactly one of the two guards holds; (R6) in GenerateMD5PodTemplateSpec and GenerateHashFromEDSResourceNodeAnnotation no digest feed (Write / io.Copy / Fprint* / crypto Sum input) lies inside a range-over-map loop, no string or buffer accumulated in such a loop reaches the digest, and every slice appended to in such a loop that reaches the digest is passed to a sort call that dominates the feed. (R2, survivor clause) wherever the writer, or a helper it hands the rebuilt term to, finds in a scan of the term's MatchFields an element whose Key is the node-name key, it stores the requirement at that element's index on every path of that iteration, whatever the element's operator or values — the reader returns the first requirement with that key. Shapes read through: (R2) the reader may return the node name a repository helper found (the helper then gives the Key guarantee), and an existing node-name requirement may be replaced in a loop over collected indexes when the append is skipped only for a non-empty index list; (R4) the reader of a hash annotation may be handed the pod's annotation map instead of the pod (at every call the map must be a pod's Annotations), and the replica set whose namespace enters the node hash may be reached through a field; (R8) a namespace/name read off an object that is itself reached through fields is classified by that object's type.", runC10)
 }
 
 type c10Ctx struct {
@@ -1165,7 +1165,7 @@ func c10Affinity(r *Run) {
 		o2 := r.Check("C10.R2", cTerm, pos, sf, "no rebuilt list in this implementation", true, "")
 		o2.Trivial = true
 	} else {
-		c10RebuiltList(r, fn, k, rebuilt, isAff, isReq, isReqList, cLoop, cTerm)
+		c10RebuiltList(r, fn, k, rebuilt, isAff, isReq, isReqList, cLoop, cTerm, keyConst)
 	}
 
 	// reader
@@ -1281,7 +1281,7 @@ func readOnlyLiteral(a *ssa.Alloc) (int, bool) {
 	return n, true
 }
 
-func c10RebuiltList(r *Run, fn *ssa.Function, k *keyer, L *ssa.Phi, isAff func(ssa.Value) bool, isReq, isReqList func(ssa.Value) bool, cLoop, cTerm string) {
+func c10RebuiltList(r *Run, fn *ssa.Function, k *keyer, L *ssa.Phi, isAff func(ssa.Value) bool, isReq, isReqList func(ssa.Value) bool, cLoop, cTerm, keyConst string) {
 	sf := shortFunc(fn)
 	H := L.Block()
 	pos := r.Prog.Pos(L.Pos())
@@ -1333,6 +1333,7 @@ func c10RebuiltList(r *Run, fn *ssa.Function, k *keyer, L *ssa.Phi, isAff func(s
 
 	okLoop, whyLoop := true, ""
 	okTerm, whyTerm := true, ""
+	okKeep, whyKeep := true, ""
 	for b := range loop {
 		if b == H {
 			continue
@@ -1380,13 +1381,18 @@ func c10RebuiltList(r *Run, fn *ssa.Function, k *keyer, L *ssa.Phi, isAff func(s
 			}
 		}
 
-		pin := &c10Pin{prog: r.Prog, fn: fn, term: newTerm, isReq: isReq}
+		pin := &c10Pin{prog: r.Prog, fn: fn, term: newTerm, isReq: isReq, key: keyConst}
 		if ok, why := pin.pinnedAt(A, load, 0); !ok {
 			okTerm, whyTerm = false, fmt.Sprintf("the append at %s: %s", r.Prog.Pos(ap.Pos()), why)
+		}
+		if ok, why, _ := pin.keyMatchesReplaced(); !ok {
+			okKeep, whyKeep = false, why
 		}
 	}
 	r.Check("C10.R2", cLoop, pos, sf, nLoop, okLoop, whyLoop)
 	r.Check("C10.R2", cTerm, pos, sf, nTerm, okTerm, whyTerm)
+	r.Check("C10.R2", "no other node-name requirement survives", pos, sf,
+		"wherever the writer (or a helper it hands the term to) finds an existing requirement with the node-name key in the rebuilt term's MatchFields, it replaces that element by the requirement, whatever its operator (the reader returns the first requirement with that key)", okKeep, whyKeep)
 }
 
 // ---------------------------------------------------------------------------------------------
@@ -3008,6 +3014,7 @@ type c10Pin struct {
 	fn    *ssa.Function
 	term  ssa.Value
 	isReq func(ssa.Value) bool
+	key   string // the field-selector key the reader looks for ("" if unknown)
 }
 
 func (c *c10Pin) isMF(addr ssa.Value) bool {
@@ -3070,7 +3077,7 @@ func (c *c10Pin) lastEvent(b *ssa.BasicBlock, before ssa.Instruction, depth int)
 			found = true
 			set, why = false, shortFunc(cal)+" is called on the term without the requirement"
 			if ri >= 0 && depth < 2 {
-				set, why = c10HelperPins(c.prog, cal, ti, ri, depth+1)
+				set, why = c10HelperPins(c.prog, cal, ti, ri, depth+1, c.key)
 				if !set {
 					why = shortFunc(cal) + ": " + why
 				}
@@ -3203,6 +3210,117 @@ func (c *c10Pin) replacedByLoop(q, A *ssa.BasicBlock) bool {
 	return false
 }
 
+// keyMatchesReplaced: the reader returns the value of the FIRST requirement of a term whose Key is the
+// node-name key, whatever its operator. So wherever this function finds, while scanning the term's
+// MatchFields, an element with that Key, it must replace that very element by the requirement: on
+// every path of the scanning loop's iteration that carries the fact element.Key == key, the
+// requirement is stored at the element's index. n counts the key tests found.
+func (c *c10Pin) keyMatchesReplaced() (ok bool, why string, n int) {
+	if c.key == "" {
+		return true, "", 0
+	}
+	k := newKeyer(c.fn)
+	type test struct {
+		idx ssa.Value
+		H   *ssa.BasicBlock
+	}
+	var tests []test
+	elemOf := func(x ssa.Value) (ssa.Value, ssa.Value, bool) {
+		root, pp := accessPath(unwrap(x))
+		if !samePath(pp, []string{"Key"}) {
+			return nil, nil, false
+		}
+		S, idx, okE := c13Elem(k, root)
+		if !okE {
+			return nil, nil, false
+		}
+		u, isL := S.(*ssa.UnOp)
+		if !isL || u.Op != token.MUL || !c.isMF(u.X) {
+			return nil, nil, false
+		}
+		return S, idx, true
+	}
+	seen := map[string]bool{}
+	for _, b := range c.fn.Blocks {
+		for _, in := range b.Instrs {
+			bo, isB := in.(*ssa.BinOp)
+			if !isB {
+				continue
+			}
+			x, y, isEq := eqOperands(bo)
+			if !isEq {
+				continue
+			}
+			for _, pr := range [][2]ssa.Value{{x, y}, {y, x}} {
+				if !isConstStringVal(c.key)(pr[1]) {
+					continue
+				}
+				S, idx, okE := elemOf(pr[0])
+				if !okE {
+					continue
+				}
+				n++
+				H, whyL := indexLoopOver(k, idx, S)
+				if H == nil {
+					return false, "a MatchFields element is tested for the node-name key outside a full index loop: " + whyL, n
+				}
+				if key := k.key(idx); !seen[key] {
+					seen[key] = true
+					tests = append(tests, test{idx, H})
+				}
+			}
+		}
+	}
+	for _, t := range tests {
+		loop := loopBlocks(t.H)
+		var from *ssa.BasicBlock
+		for _, s := range t.H.Succs {
+			if loop[s] {
+				from = s
+			}
+		}
+		if from == nil {
+			return false, "undecided: scanning loop without a body", n
+		}
+		isH := func(x *ssa.BasicBlock) bool { return x == t.H }
+		leaves := func(x *ssa.BasicBlock) bool { return x == t.H || !loop[x] }
+		paths, okP := enumPaths(c.fn, k, from, leaves, leaves, 2000)
+		if !okP {
+			return false, "undecided: path cap exceeded in the scanning loop", n
+		}
+		_ = isH
+		idxKey := k.key(t.idx)
+		for _, p := range paths {
+			if !p.Has(true, func(v ssa.Value, _ string) bool {
+				return isEqCompare(v, func(x ssa.Value) bool {
+					_, idx, okE := elemOf(x)
+					return okE && k.key(idx) == idxKey
+				}, isConstStringVal(c.key))
+			}) {
+				continue
+			}
+			replaced := false
+			for _, b := range p.Blocks {
+				for _, in := range b.Instrs {
+					st, isSt := in.(*ssa.Store)
+					if !isSt {
+						continue
+					}
+					if ia, isIA := st.Addr.(*ssa.IndexAddr); isIA && k.key(ia.Index) == idxKey {
+						if u, isL := ia.X.(*ssa.UnOp); isL && u.Op == token.MUL && c.isMF(u.X) && c.isReq(st.Val) {
+							replaced = true
+						}
+					}
+				}
+			}
+			if !replaced {
+				return false, "an existing requirement on " + c.key + " is left in place on the path [" + shortFacts(p) + "]: the reader returns the value of the first requirement with that key, whatever its operator", n
+			}
+		}
+	}
+	return true, "", n
+}
+
 func (c *c10Pin) pinnedAt(A *ssa.BasicBlock, before ssa.Instruction, depth int) (bool, string) {
 	fn := c.fn
 	// element stores into term.MatchFields anywhere must store the requirement
@@ -3295,7 +3413,7 @@ func (c *c10Pin) pinnedAt(A *ssa.BasicBlock, before ssa.Instruction, depth int) 
 
 // c10HelperPins: on every return path of the helper the MatchFields of its term parameter contain
 // its requirement parameter.
-func c10HelperPins(prog *Prog, fn *ssa.Function, ti, ri int, depth int) (bool, string) {
+func c10HelperPins(prog *Prog, fn *ssa.Function, ti, ri int, depth int, key string) (bool, string) {
 	if ti >= len(fn.Params) || ri >= len(fn.Params) {
 		return false, "unexpected signature"
 	}
@@ -3313,7 +3431,10 @@ func c10HelperPins(prog *Prog, fn *ssa.Function, ti, ri int, depth int) (bool, s
 		}
 		return false
 	}
-	pin := &c10Pin{prog: prog, fn: fn, term: term, isReq: isReq}
+	pin := &c10Pin{prog: prog, fn: fn, term: term, isReq: isReq, key: key}
+	if ok, why, _ := pin.keyMatchesReplaced(); !ok {
+		return false, why
+	}
 	n := 0
 	for _, b := range fn.Blocks {
 		ret := returnOf(b)
